@@ -7,6 +7,7 @@ import (
 	"net"
 	"net/url"
 	"strings"
+	"sync"
 
 	"github.com/la5nta/wl2k-go/transport"
 )
@@ -288,6 +289,39 @@ func init() {
 		}
 		for _, s := range regSchemes {
 			transport.UnregisterDialer(s)
+		}
+		// concurrent register/unregister/dial (witness search for the registry's mutex discipline; only
+		// meaningful in the -race build, harmless otherwise)
+		{
+			var wg sync.WaitGroup
+			for g := 0; g < 8; g++ {
+				wg.Add(1)
+				go func(g int) {
+					defer wg.Done()
+					var hits []int
+					for k := 0; k < 300; k++ {
+						sc := regSchemes[(g+k)%3]
+						switch (g + k) % 3 {
+						case 0:
+							transport.RegisterDialer(sc, idDialer{g, &hits})
+						case 1:
+							transport.UnregisterDialer(sc)
+						default:
+							transport.DialURL(&transport.URL{Scheme: sc, Target: "LA1B"})
+						}
+					}
+				}(g)
+			}
+			wg.Wait()
+			for _, s := range regSchemes {
+				transport.UnregisterDialer(s)
+			}
+			if raceEnabled {
+				for _, r := range raceReports() {
+					c.Violate("C19:data-race:"+raceKey(r), "the race detector reported a data race in concurrent register/unregister/dial calls", map[string]interface{}{"race_report": trunc(r, 6000)})
+				}
+				c.Note("race detector enabled: %d report(s)", len(raceReports()))
+			}
 		}
 		c.Compare(cases)
 	})
